@@ -213,26 +213,53 @@ impl ExactSizeIterator for OsuGradualDifficulty {
 }
 
 mod osu_objects {
-    use std::pin::Pin;
+    use std::{pin::Pin, ptr::NonNull};
 
     use crate::osu::object::OsuObject;
 
     /// Wrapper to ensure that the data will not be moved
+    ///
+    /// The allocation is owned through a raw pointer instead of a `Box`
+    /// because `OsuGradualDifficulty::diff_objects` holds references into it.
+    /// A `Box` claims unique access to its allocation each time the
+    /// surrounding struct is moved or passed by value which would invalidate
+    /// those references.
     pub(super) struct OsuObjects {
-        objects: Box<[OsuObject]>,
+        objects: NonNull<[OsuObject]>,
     }
 
+    // SAFETY: `OsuObjects` owns its allocation exactly like `Box<[OsuObject]>`
+    unsafe impl Send for OsuObjects where Box<[OsuObject]>: Send {}
+    // SAFETY: see above
+    unsafe impl Sync for OsuObjects where Box<[OsuObject]>: Sync {}
+
     impl OsuObjects {
-        pub(super) const fn new(objects: Box<[OsuObject]>) -> Self {
-            Self { objects }
+        pub(super) fn new(objects: Box<[OsuObject]>) -> Self {
+            Self {
+                objects: NonNull::from(Box::leak(objects)),
+            }
         }
 
         pub(super) const fn is_empty(&self) -> bool {
-            self.objects.is_empty()
+            self.objects.len() == 0
         }
 
         pub(super) fn iter_mut(&mut self) -> impl ExactSizeIterator<Item = Pin<&mut OsuObject>> {
-            self.objects.iter_mut().map(Pin::new)
+            // SAFETY: The pointer stems from a leaked `Box` that is only
+            // freed on drop and `&mut self` ensures unique access.
+            let objects = unsafe { self.objects.as_mut() };
+
+            objects.iter_mut().map(Pin::new)
+        }
+    }
+
+    impl Drop for OsuObjects {
+        fn drop(&mut self) {
+            // SAFETY: The pointer stems from `Box::leak` in `OsuObjects::new`
+            // and is freed only here. References into the allocation are
+            // held by `OsuGradualDifficulty::diff_objects` which is declared,
+            // and thus dropped, before this field.
+            drop(unsafe { Box::from_raw(self.objects.as_ptr()) });
         }
     }
 }
